@@ -397,6 +397,17 @@ run_cmd do
             # no theorem was checked in this run: do not call it a proof
             level = 'exploration'
         self.level = level
+        libs = getattr(self, 'inproc', None)
+        if libs:
+            cov['inproc_libraries'] = [
+                {'library': n,
+                 'evaluations': (r or {}).get('evaluations'),
+                 'distinct_nontrivial': (r or {}).get('distinct_nontrivial')}
+                for n, r in libs if isinstance(r, dict) or r is None]
+            extra = sum((r or {}).get('evaluations') or 0 for _, r in libs
+                        if isinstance(r, dict))
+            cov['evaluations_including_inproc'] = \
+                (cov.get('evaluations') or 0) + extra
         cov['theorems'] = self.obligations[:200]
         cov['known_findings_hit'] = self.known_hits
         if self.gen_report:
